@@ -36,6 +36,16 @@ claimed = {
   text="A fixed, import-free program with one function per operator/type/conversion/constant-operand combination (4086 functions) is compiled by the llgo under test at O0, O2, Oz and O2+nogc (thorough: also O1/O3/Os, O0+nogc) and driven over a pipe; the same package linked into the gc-compiled harness is the oracle. rapid draws boundary-biased operand tuples with shrinking; all 8-bit operand pairs (and 16-bit unary/conversion inputs) are enumerated exhaustively. Exploration for 32/64-bit operands, exhaustive for the 8-bit sub-space.",
   note="gc (go1.24/amd64) defines the expected values; out-of-range float->int conversions excluded; NaN equals NaN; complex64 * and / compared with a stated tolerance; LLVM 14 instead of the LLVM 19 llgo ships with.",
   design="§3 C02"),
+ "C05": dict(
+  technique="model-based stateful property testing (rapid state machine vs an explicit slice model) and differential testing of string operations against native execution",
+  text="A fixed import-free interpreter (slice register machine over six element sizes; 16 string operations) is compiled by the llgo under test at O0/O2/Oz/O2+nogc; rapid generates operation histories with aliasing, growth-threshold lengths and self-overlap; after every step all registers are compared with an explicit model (itself validated against gc on every case); strings with invalid UTF-8 are compared byte for byte with gc. Exploration only.",
+  note="Capacity growth amounts are observed, not asserted; panicking (out-of-range) operations belong to C03; LLVM 14.",
+  design="§3 C05"),
+ "C06": dict(
+  technique="stateful differential testing (rapid histories vs gc's map executing the same interpreter) plus an invariant predicate over range-with-mutation transcripts",
+  text="A fixed import-free interpreter with 14 key/value type pairs is compiled by the llgo under test; rapid generates point-operation histories (including bulk growth/churn up to 20000 keys, special float keys, mixed interface keys, unhashable keys) compared step by step with gc, and range loops with scripted mutations whose transcripts must satisfy the spec's iteration guarantees and leave the modelled final map. Exploration only.",
+  note="gc's map is the reference for point operations; which of +0/-0 a map keeps as key is not compared; loops over 160-byte keys/values are kept short because of the listed stack-exhaustion finding.",
+  design="§3 C06"),
 }
 not_yet = "check not built yet in this session (see DESIGN.md §3 for the planned generated-input check)"
 
